@@ -539,7 +539,8 @@ inline Value queryAnamHermite(AnamHermite* a)
   q["nbpoly"] = I(a->getNbPoly());
   q["mean"] = T(a->getMean());
   q["variance"] = T(a->getVariance());
-  if (a->getNbPoly() >= 1 && a->getNbPoly() <= 50)
+  // (with a single coefficient transformToRawValue writes In[1] of a vector of size 1: Hermite.cpp:56, not a matter of files)
+  if (a->getNbPoly() >= 2 && a->getNbPoly() <= 50)
   {
     bool fin = true;
     for (double v : a->getPsiHns()) if (FFFF(v) || std::fabs(v) > 1e10) fin = false;
